@@ -345,8 +345,7 @@ func report(o *options, all []*hstate, known map[string]string, overlay map[stri
 				for k, pv := range c.sample.Observed {
 					if nv, has := no.Observed[k]; !has || nv != pv {
 						ok = false
-						why = fmt.Sprintf("observe %s: predicted %s native %s", k, pv, nv)
-						break
+						why += fmt.Sprintf("observe %s: predicted %s native %s; ", k, pv, nv)
 					}
 				}
 			} else if no != nil {
